@@ -50,9 +50,12 @@ theorem rebuilt_eq_erase {w : Nat} {cw : List Bytes} (hcw : cw.length = w) :
 
 /-- **Soundness core.**  Against the DAH of a square accepted by `new`, a proof whose indicated axis is a codeword
     (that the decoder recovers from any half) never validates — whatever shares, proofs, positions, namespaces,
-    proof axes, height and index it carries.  Idealised hash. -/
-theorem validate_rejects_codeword {H : HashFn} (hk : HashOK H) (C : Codec) {ver : Nat} {X : List Bytes} {e : Eds}
+    proof axes, height and index it carries.  Hash: 32-byte output and no collision among the byte strings actually hashed —
+    by `Dah.ofEds` for the committed square (`edsInputs`) and by the verification of this proof's share proofs
+    (`befpInputs`). -/
+theorem validate_rejects_codeword {H : HashFn} (C : Codec) {ver : Nat} {X : List Bytes} {e : Eds}
     (hn : NewOK ver X e) {dah : Dah} (hd : Dah.ofEds H e = .ok dah) (p : Befp) (hwf : BefpWF p) (hh : Nat)
+    (hk : HashOKOn H (fun y => y ∈ edsInputs H e ++ befpInputs H p.shares))
     (hcw : p.index < e.width → IsCodeword C.enc (e.width / 2) (axisData e X p.axis p.index) ∧
       RecOK C (e.width / 2) (axisData e X p.axis p.index)) :
     validate H C p hh dah ≠ .ok () := by
@@ -89,7 +92,8 @@ theorem validate_rejects_codeword {H : HashFn} (hk : HashOK H) (C : Codec) {ver 
                 | ok u =>
                   simp only [hvs] at hv
                   -- every present share is the committed share of its position
-                  have hbound := verifyShares_sound hk hn hd hidx' p.shares 0 (by omega) hwf hvs
+                  have hbound := verifyShares_sound hk hn (fun y hy => List.mem_append_left _ hy) hd hidx' p.shares 0 (by omega) hwf
+                    (fun y hy => List.mem_append_right _ hy) hvs
                   have hcwl : (axisData e X p.axis p.index).length = e.width := by simp [axisData, lineCells]
                   have hreb := rebuilt_eq_erase hcwl p.shares hslen' (by
                     intro m s hm
